@@ -201,13 +201,15 @@ def extra_phase(tier, seed):
     from .. import quotelattice as Q
     L = 4 if tier == 'thorough' else 2
     jobs, skipped = Q.comments(L)
+    joined = Q.joins()
+    jobs = joined + jobs
     runs, bad = Q.survey(jobs)
     findings = [('C18/comment-changes-a-statement-of-quoted-characters', {'kind': 'lattice', 'line': j['line'], 'bytes': j['bytes']}, d)
                 for j, d in bad]
     return {'evals': len(jobs), 'cases': len(jobs), 'findings': findings,
             'nt': {'lattice:' + j['line'] for j in jobs[:2000]},
             'report': {'quoted_character_comment_lattice': {
-                'lines_enumerated': len(jobs), 'assembler_runs': runs, 'exhaustive_up_to_comment_length': L,
+                'lines_enumerated': len(jobs), 'of_which_two_statements_on_one_line': len(joined), 'assembler_runs': runs, 'exhaustive_up_to_comment_length': L,
                 'comment_alphabet': Q.COMMENT_ALPHABET, 'not_asserted_two_readings': skipped}},
             'samples': [{'lattice_line': j['line'], 'expected_bytes': bytes(j['bytes']).hex()} for j in jobs[40:42]]}
 
